@@ -436,6 +436,21 @@ Section K.
     | RFuel => None
     end.
 
+  (** the kernel result together with the number of accepted sub-steps of every time step
+      (one evaluation of [storage_run]; for long runs whose full trace is too large to print) *)
+  Definition storage_kernel_counts (params states : list T) (inputs : list (list T))
+    : option (list (list T) * list T) * list nat :=
+    match storage_run params states inputs with
+    | ROk os v l a =>
+        (Some ([ map r_volume os; map r_outflow os; map r_rainfallVolume os; map r_evaporationVolume os ],
+               [v; l; a]),
+         map (fun o => length (r_substeps o)) os)
+    | RConfigError n =>
+        let z := repeat zero n in (Some ([z; z; z; z], [zero; zero; zero]), [])
+    | RPanic => (None, [])
+    | RFuel => (None, [])
+    end.
+
   (** ghost view for the check script: outcome and, per time step, the accepted
       sub-steps flattened to [h; avgOutflow; avgArea; spill; v0; vp; v1] *)
   Inductive trace_code := TCOk | TCConfigError | TCPanic | TCFuel.
